@@ -4,12 +4,13 @@
 # and the check imports physt from there through PYTHONPATH (for triage while other jobs use /repo; the seeded matrix
 # itself applies patches to /repo).
 set -u
-patch="$1"; prop="$2"; tier="${3:-quick}"
+patch="$(readlink -f "$1")"; prop="$2"; tier="${3:-quick}"
+verif="$(cd "$(dirname "$(readlink -f "$0")")/.." && pwd)"
 wt=$(mktemp -d /var/tmp/mutwt.XXXX); rmdir "$wt"
 git -C /repo worktree add --detach -f "$wt" HEAD >/dev/null 2>&1 || { echo "worktree failed"; exit 2; }
 if ! git -C "$wt" apply "$patch"; then echo "patch does not apply"; git -C /repo worktree remove --force "$wt"; exit 2; fi
 loc=$(PYTHONPATH="$wt/src" /venv/bin/python -c "import physt; print(physt.__file__)")
 case "$loc" in "$wt"*) ;; *) echo "physt not imported from the worktree: $loc"; git -C /repo worktree remove --force "$wt"; exit 2;; esac
-cd /verif && PYTHONPATH="$wt/src" ./check "$prop" --tier "$tier"; rc=$?
+cd "$verif" && PYTHONPATH="$wt/src" ./check "$prop" --tier "$tier"; rc=$?
 git -C /repo worktree remove --force "$wt"
 echo "exit=$rc"
